@@ -326,6 +326,9 @@ def rule_branch_tables(ctx):
                 good_base = p is not None and len(p) == 1 and list(p.values()) == [1.0] and sorted(a[0] for a in list(p)[0]) == ['cast', 'inv'] and \
                     [a for a in list(p)[0] if a[0] == 'inv'][0][1] == e4.canon({(t_atom,): 1.0, (): 1.0})
                 arms['scale'] = (key, form and good_base)
+        for bi, t, e in q.calls_named(f, 'fill'):
+            if len(e[2]) == 2 and is_const(strip_refs(e[2][1]), 0) and q.find_sub(e[2][0], lambda x: x[0] == 'param' and x[1] == 3) is not None:
+                arms['zero'] = tab.get(bi, ())     # avg_strat.fill(0.0)
         ok = arms.get('zero') == ((INF, True),) and arms.get('scale', (None, False))[0] == ((INF, False), ('Gt0.0', True)) and arms.get('scale', (None, False))[1]
         ctx.verdict(bool(ok), rule, rule, 'gamma = +inf zeroes the average, gamma > 0 multiplies it by (t/(t+1))^gamma, otherwise it is untouched', f.where(0), 'arms: %s' % arms,
                     breaks='iteration t does not contribute with weight t^gamma')
